@@ -468,3 +468,22 @@ def gen_sph(repo):
     out.append("")
     out.append("end Pms.Gen.Sph")
     return [("Pms/Gen/Sph.lean", "\n".join(out) + "\n", [rel])]
+
+
+# --------------------------------------------------------------------------- per-property generator modules
+# every translator/gens/*.py registers its generators with @generator("name") on import
+def _load_gens():
+    import importlib.util
+    import sys as _sys
+    _sys.modules.setdefault("pms2lean", _sys.modules[__name__])
+    d = os.path.join(os.path.dirname(os.path.abspath(__file__)), "gens")
+    if not os.path.isdir(d):
+        return
+    for fn in sorted(os.listdir(d)):
+        if fn.endswith(".py") and not fn.startswith("_"):
+            spec = importlib.util.spec_from_file_location("pms2lean_gens_" + fn[:-3], os.path.join(d, fn))
+            mod = importlib.util.module_from_spec(spec)
+            spec.loader.exec_module(mod)
+
+
+_load_gens()
